@@ -57,6 +57,12 @@ func cmdVerify(args []string) {
 			for _, o := range res.Obls {
 				if *verbose || o.Status != "discharged" {
 					fmt.Printf("  %-10s %-70s %s %.2fs vcs=%d %s\n", o.Status, o.Name, o.Solver, o.TimeS, len(o.VCs), trunc(o.Detail, 300))
+					if *verbose && o.Status != "discharged" {
+						for _, k := range sortedKeys(o.Inputs) {
+							fmt.Printf("      input %s = %s\n", k, trunc(o.Inputs[k], 120))
+						}
+						fmt.Printf("      trace %v\n", o.Trace)
+					}
 				}
 			}
 			if *verbose {
